@@ -49,6 +49,15 @@ const (
 type c20Trace struct {
 	ev  []uint16
 	err error // error value returned by failing logic steps (nil: errC20)
+	// distinctNames: every named value step gets its own value name (default: all steps share the name "v")
+	distinctNames bool
+}
+
+func (t *c20Trace) name(i int) string {
+	if t.distinctNames {
+		return fmt.Sprintf("v%d", i)
+	}
+	return "v"
 }
 
 // c20ErrKinds: error values a failing logic step may return. The statement speaks of "logic error": every non-nil error is one.
@@ -83,7 +92,7 @@ func c20Build(chain []int, t *c20Trace) *checker.Checker {
 			if sym.Fail {
 				v = ""
 			}
-			c.WithValueNotEmptyCheck("v", func() string { t.add(i, evBody); return v }, cb)
+			c.WithValueNotEmptyCheck(t.name(i), func() string { t.add(i, evBody); return v }, cb)
 		case 1:
 			v := []string{"a", "b"}
 			if sym.Fail {
@@ -95,20 +104,20 @@ func c20Build(chain []int, t *c20Trace) *checker.Checker {
 			if sym.Fail {
 				v = "a"
 			}
-			c.WithValueLengthCheck("v", func() string { t.add(i, evBody); return v }, 2, 3, cb)
+			c.WithValueLengthCheck(t.name(i), func() string { t.add(i, evBody); return v }, 2, 3, cb)
 		case 3:
 			w := "a"
 			if sym.Fail {
 				w = "b"
 			}
-			c.WithValueEqualsCheck("v", func() string { t.add(i, evBody); return "a" }, func() string { t.add(i, evBody); return w }, cb)
+			c.WithValueEqualsCheck(t.name(i), func() string { t.add(i, evBody); return "a" }, func() string { t.add(i, evBody); return w }, cb)
 		case 4:
 			v := "x"
 			if sym.Fail || sym.Cond == 2 {
 				v = "" // with cond false an (unevaluated) empty value must not fail the step
 			}
 			cond := sym.Cond == 1
-			c.WithConditionalValueNotEmpty(func() bool { t.add(i, evCond); return cond }, "v", func() string { t.add(i, evBody); return v }, cb)
+			c.WithConditionalValueNotEmpty(func() bool { t.add(i, evCond); return cond }, t.name(i), func() string { t.add(i, evBody); return v }, cb)
 		case 5:
 			var e error
 			if sym.Fail || sym.Cond == 2 {
@@ -259,6 +268,7 @@ func runC20(ctx Ctx) int {
 		var withErr struct {
 			Chain []int  `json:"chain"`
 			Err   string `json:"logic_error"`
+			Dist  bool   `json:"distinct_names"`
 		}
 		t := &c20Trace{}
 		if err := loadReplay(ctx.Replay, &chain); err != nil {
@@ -267,6 +277,7 @@ func runC20(ctx Ctx) int {
 				return 2
 			}
 			chain = withErr.Chain
+			t.distinctNames = withErr.Dist
 			for _, k := range c20ErrKinds {
 				if k.Name == withErr.Err {
 					t.err = k.Err
@@ -437,6 +448,36 @@ func runC20(ctx Ctx) int {
 			}
 		})
 		run.Set("chains_with_other_error_values", len(chains)*len(c20ErrKinds))
+	}
+	// value names: every chain of length <= 4 again with a distinct value name per step (the main pass gives all named steps
+	// the same name "v": the name is a label, never an identity)
+	{
+		var chains [][]int
+		var gen func(p []int)
+		gen = func(p []int) {
+			chains = append(chains, append([]int{}, p...))
+			if len(p) == 4 {
+				return
+			}
+			for s := range c20Syms {
+				gen(append(p, s))
+			}
+		}
+		gen(nil)
+		parallel(16, time.Time{}, func(sh int) {
+			tt := &c20Trace{distinctNames: true}
+			for ci := sh; ci < len(chains); ci += 16 {
+				chain := chains[ci]
+				cl, d := c20Run(chain, tt)
+				run.Evaluations.Add(1)
+				run.AddStates(1)
+				run.Transitions.Add(2)
+				if cl != "" {
+					run.Violate(cl, "checker.Checker", append(c20Labels(chain), "distinct-value-names"), map[string]any{"chain": c20Names(chain), "observed": d}, map[string]any{"chain": chain, "distinct_names": true})
+				}
+			}
+		})
+		run.Set("chains_with_distinct_value_names", len(chains))
 	}
 	c20Kinds(run)
 	return run.Finish()
